@@ -119,3 +119,30 @@ package mainmw
 //@   ensures starts-with-this-request-only: fctx != nil && fctx.originalRequest == req && fctx.modifiedRequest == nil &&
 //@           fctx.originalResponse == nil && fctx.filteredResponse == nil && fctx.requestResult == nil && fctx.responseResult == nil && fctx.elapsed == 0
 //@   ensures fctx.isDebug == (old(req.Question[0].Qclass) == 3)
+
+// ---------------------------------------------------------------------------
+// C02: "nothing is filtered when filtering is disabled for the profile or
+// device".  Which filter a request gets: the profile's own configuration when
+// both its profile and its device have filtering on, NO configuration when
+// either has it off (for which the storage gives the filter that filters
+// nothing), the filtering group's configuration when the request belongs to no
+// profile.
+//@ fun fltFor(s filter.Storage, c filter.Config) filter.Interface
+//@ interface filter.Storage method ForConfig
+//@   modifies heap
+//@   preserves agd.RequestInfo.*, agd.Profile.*, agd.Device.*, agd.FilteringGroup.*, agd.DeviceResultOK.*
+//@   ensures f == fltFor(this, c) && (c == nil ==> istype(f, filter.Empty))
+//@ func (*Middleware).filter
+//@   property C02
+//@   requires mw != nil && ref(mw.fltStrg) != 0 && ri != nil && ri.FilteringGroup != nil &&
+//@            (isptr(ri.DeviceResult, agd.DeviceResultOK) ==> asptr(ri.DeviceResult, agd.DeviceResultOK) != nil &&
+//@              (asptr(ri.DeviceResult, agd.DeviceResultOK).Profile != nil ==> asptr(ri.DeviceResult, agd.DeviceResultOK).Device != nil))
+//@   modifies heap
+//@   preserves agd.RequestInfo.*, agd.Profile.*, agd.Device.*, agd.FilteringGroup.*, agd.DeviceResultOK.*
+//@   ensures filtering-off-for-the-profile-or-the-device-filters-nothing: isptr(ri.DeviceResult, agd.DeviceResultOK) && asptr(ri.DeviceResult, agd.DeviceResultOK).Profile != nil &&
+//@             !(asptr(ri.DeviceResult, agd.DeviceResultOK).Profile.FilteringEnabled && asptr(ri.DeviceResult, agd.DeviceResultOK).Device.FilteringEnabled) ==> istype(f, filter.Empty)
+//@   ensures filtering-on-uses-the-profiles-own-configuration: isptr(ri.DeviceResult, agd.DeviceResultOK) && asptr(ri.DeviceResult, agd.DeviceResultOK).Profile != nil &&
+//@             asptr(ri.DeviceResult, agd.DeviceResultOK).Profile.FilteringEnabled && asptr(ri.DeviceResult, agd.DeviceResultOK).Device.FilteringEnabled ==>
+//@             f == fltFor(mw.fltStrg, asiface(asptr(ri.DeviceResult, agd.DeviceResultOK).Profile.FilterConfig))
+//@   ensures no-profile-uses-the-groups-configuration: !(isptr(ri.DeviceResult, agd.DeviceResultOK) && asptr(ri.DeviceResult, agd.DeviceResultOK).Profile != nil) ==>
+//@             f == fltFor(mw.fltStrg, asiface(ri.FilteringGroup.FilterConfig))
